@@ -12,7 +12,7 @@
    The comparator is a Section variable; SkipList[K] is the instance with the built-in order of K.
 
    Second half: the specification, a strictly sorted association list (OMap), and its run function. *)
-From Coq Require Import List ZArith Bool Arith.
+From Coq Require Import List ZArith Bool Arith Sorted.
 From V Require Import Gen.SkipConsts.
 Import ListNotations.
 
@@ -236,6 +236,30 @@ Fixpoint run (vr : variant) (s : sk) (ops : list op) (rnd : list Z) : option (li
               end
   end.
 
+(* the state after a sequence (None = a panic on the way) *)
+Fixpoint exec (vr : variant) (s : sk) (ops : list op) (rnd : list Z) : option sk :=
+  match ops with
+  | [] => Some s
+  | o :: t => match step vr s o rnd with Some (s', _, rnd') => exec vr s' t rnd' | None => None end
+  end.
+
+(* what "total-order comparator" means: antisymmetric (equivalent keys are equal), total, transitive *)
+Definition total_order : Prop :=
+  (forall a b, cmp a b = Eq -> a = b) /\
+  (forall a b, cmp b a = CompOpp (cmp a b)) /\
+  (forall a b c, cmp a b = Lt -> cmp b c = Lt -> cmp a c = Lt).
+
+(* the representation invariant of an initialised list (what Proofs/ shows every operation preserves) *)
+Definition inv (s : sk) : Prop :=
+  (forall j, StronglySorted (fun a b => cmp a b = Lt) (nth j (levels s) [])) /\      (* every level strictly ascending *)
+  (forall j, incl (nth (S j) (levels s) []) (nth j (levels s) [])) /\                (* level j+1 is a sub-chain of level j *)
+  (forall j, (level s <= j)%nat -> nth j (levels s) [] = []) /\                      (* nothing at or above `level` *)
+  (1 <= level s <= length (levels s))%nat /\
+  length (levels s) = maxL /\
+  len s = Z.of_nat (length (keys0 s)) /\
+  (level s = 1%nat \/ nth (level s - 1) (levels s) [] <> []) /\                       (* the top level is in use *)
+  has_rand s = true.
+
 (* ================================================================ specification: sorted association list *)
 Definition omap := list (K * V).
 
@@ -284,12 +308,35 @@ Fixpoint s_run (m : omap) (ops : list op) : list res :=
   | o :: t => let '(m', r) := s_step m o in r :: s_run m' t
   end.
 
+(* Scope of the SkipListWithCmp statement: before the first Init the list has no comparator (and no random
+   source), so it is not written (Set/SetNx would dereference nil); RangeWithStart/RangeWithRange on the
+   untouched zero value index the nil head tower (finding F13) and are in scope only once Clear has run. *)
+Definition pre_init_ok (cleared : bool) (o : op) : bool :=
+  match o with
+  | OSet _ _ | OSetNx _ _ => false
+  | ORangeStart _ _ | ORangeRange _ _ _ => cleared
+  | _ => true
+  end.
+Fixpoint cmp_scope (cleared : bool) (ops : list op) : bool :=
+  match ops with
+  | [] => true
+  | OInit :: _ => true
+  | o :: t => pre_init_ok cleared o && cmp_scope (cleared || match o with OClear => true | _ => false end) t
+  end.
+
 (* results compared up to the shape observation (heights are not part of the ordered-map behaviour) *)
 Definition erase (r : res) : res := match r with RShape _ hs => RShape 0 (map (fun _ => 0%nat) hs) | _ => r end.
 
 End Skip.
 
 Arguments mk {K V}.
+Arguments levels {K V}.
+Arguments vals {K V}.
+Arguments level {K V}.
+Arguments len {K V}.
+Arguments has_rand {K V}.
+Arguments is_zero {K V}.
+Arguments head_ok {K V}.
 Arguments zero {K V}.
 Arguments fresh {K V}.
 Arguments OInit {K V}.
